@@ -112,10 +112,10 @@ type Exec struct {
 	root                string
 	W                   []*WatcherRec
 	H                   []*APICall
-	fds                 map[int]int // fd slots of the world
+	fds                 map[int]int  // fd slots of the world
 	Removed             []RemovedRec // inodes whose directory entry the world removed (unlink, rmdir, overwriting rename), with the step
-	deepPrefix          string      // path (relative to the working directory) of the directory made by OpDeepMk
-	deepFD              int         // O_PATH descriptor on it: the harness reaches what is below through /proc/self/fd/N/...
+	deepPrefix          string       // path (relative to the working directory) of the directory made by OpDeepMk
+	deepFD              int          // O_PATH descriptor on it: the harness reaches what is below through /proc/self/fd/N/...
 	BodyEnd             int
 	taskDone            []bool
 	nDone               int
